@@ -37,7 +37,8 @@ RULE = (
     "parameters, one-point domains, 0-2 constants, key order different from sorted order; small finite spaces for "
     "exhaustion) x points_to_evaluate (None, [], partial, full, duplicates incl. duplicates by imputation, values given "
     "in another numeric type) x allow_duplicates x history (1-4 workers, arrival policy, 5-60 events, failure plan; "
-    "exhaustion cases up to 150 events); 780 histories per quick run, 16 x in the thorough tier. Distinct = digest of (kind, sequence of suggestion tags "
+    "exhaustion cases up to 150 events; GP kinds, random, grid and regularised evolution also get NaN / +-inf metric "
+    "values: 0-6 % of the reports and 0-40 % of the trials reporting nothing else, most on small finite spaces); 780 histories per quick run, 16 x in the thorough tier. Distinct = digest of (kind, sequence of suggestion tags "
     "initial/new/explore/resume/None with the status of repeated trials, space shape); non-trivial = at least one "
     "suggestion after the initial points."
 )
@@ -76,6 +77,9 @@ ASSUMPTIONS = [
     "None on such a space and the [] check are counted (undecided:*), not judged; two different initial points with "
     "equal match strings make clause 2 undecided for that history",
     "DEHB is run with as many brackets as rungs and without failures (C05-K2, C05-K3); PASHA is not used (C04-K1)",
+    "non-finite metric values are not given to synchronous Hyperband / DEHB (NaN is their documented encoding of a failed "
+    "slot: C05 / C13) and PBT; whatever happened to an earlier trial (failed, finished on NaN / inf, stopped), its "
+    "configuration counts as suggested",
     "GP searchers are run with cheap fitting (opt_maxiter 5-10, num_init_random 2-3, opt_nstarts 1)",
     "a runtime contract runs on the real ExclusionList (patched in place during a case): contains() must agree with a shadow "
     "set of the configurations added, keyed as documented by Domain.match_string (exact for discrete values, 7 significant "
@@ -142,6 +146,9 @@ def floors(tier):
         "initial:none_default": 80 * k,
         "initial:empty": 40 * k,
         "histories_with_failure": 60 * k,
+        "nonfinite_reports": 150 * k,
+        "trials_finished_with_nonfinite_metric": 60 * k,
+        "no_repeat_after_trial_finished_on_nonfinite_metric": 300 * k,
     })
     return f
 
@@ -634,6 +641,7 @@ class Oracle:
         self.hp_ranges = None
         self.init_path = "initial_points:dehb" if kind == "dehb" else "initial_points"
         self.dehb_base = None  # size of the base rung of DEHB's first bracket
+        self.nonfinite_done = set()  # trials that finished (or were stopped / paused) on a NaN / inf metric value
         # a finite range whose rounded values collide lists the same value twice (FiniteRange.values)
         self.grid_sfx = ":finite_range_lists_a_value_twice" if any(len(set(v)) < len(v) for v in self.values.values()) else ""
 
@@ -777,6 +785,8 @@ class Oracle:
                 o.count("no_repeat_with_pending_trial")
             if "failed" in sts:
                 o.count("no_repeat_with_failed_trial")
+            if self.nonfinite_done:
+                o.count("no_repeat_after_trial_finished_on_nonfinite_metric")
             if earlier:
                 st = min((status_of.get(x, "completed") for x in earlier), key=lambda s: _STATUS_RANK.get(s, 9))
                 name = _STATUS_NAME.get(st, st)
@@ -1145,6 +1155,17 @@ def expand(spec):
     if kind.startswith("direct"):
         p["steps"] = rng.randint(40, 150) if (exhaust or kind == "direct_grid") else rng.randint(5, 60)
     p["pte_seed"] = rng.randrange(2 ** 31)
+    # non-finite metric values (NaN / +-inf): a few per cent of the reports and whole trials that report nothing else.
+    # Drawn from a separate stream; reproducer specs (explicit space) default to finite metrics unless they say otherwise.
+    r2 = random.Random(spec["seed"] * 2654435761 % (2 ** 32) + 17)
+    p["nonfinite_rate"], p["nonfinite_trials"], p["nonfinite_plan"] = 0.0, 0.0, None
+    if "space" not in spec:
+        if kind in GP_KINDS:
+            p["nonfinite_rate"] = r2.choice([0.0, 0.03, 0.06])
+            p["nonfinite_trials"] = r2.choice([0.1, 0.25, 0.4]) if exhaust else r2.choice([0.0, 0.1, 0.2])
+        elif kind in ("random", "grid", "regevo"):
+            p["nonfinite_rate"] = r2.choice([0.0, 0.0, 0.03])
+            p["nonfinite_trials"] = r2.choice([0.0, 0.0, 0.15])
     p.update({k: v for k, v in spec.items() if k not in ("seed", "kind") and not k.startswith("_")})
     return p
 
@@ -1322,6 +1343,39 @@ class exclusion_contract:
         return False
 
 
+_NONFINITE = {"nan": float("nan"), "inf": float("inf"), "-inf": float("-inf")}
+
+
+class NonFiniteMetrics:
+    """Metric table with NaN / +-inf entries: isolated reports (rate) and whole trials (trial_prob or explicit plan
+    {trial id: 'nan' | 'inf' | '-inf'})."""
+
+    def __init__(self, curves, seed, rate, trial_prob, plan=None):
+        self.curves, self.seed, self.rate, self.trial_prob = curves, seed, rate, trial_prob
+        self.plan = {int(k): v for k, v in (plan or {}).items()}
+        self.active = rate > 0 or trial_prob > 0 or bool(self.plan)
+
+    def whole(self, tid):
+        if tid in self.plan:
+            return _NONFINITE[self.plan[tid]]
+        if self.trial_prob > 0:
+            r = random.Random(self.seed * 1000003 + tid * 7 + 1)
+            if r.random() < self.trial_prob:
+                return _NONFINITE[r.choice(["nan", "nan", "inf", "-inf"])]
+        return None
+
+    def __call__(self, tid, level, config=None):
+        if self.active:
+            w = self.whole(tid)
+            if w is not None:
+                return w
+            if self.rate > 0:
+                r = random.Random(self.seed * 1000003 + tid * 1009 + level * 13 + 5)
+                if r.random() < self.rate:
+                    return _NONFINITE[r.choice(["nan", "inf", "-inf"])]
+        return self.curves(tid, level, config)
+
+
 # ------------------------------------------------------------------------------------------ vtuner monitor
 
 
@@ -1333,6 +1387,21 @@ class Monitor:
     def pre_suggest(self, vt, next_id):
         if self.joblog is not None:
             self.joblog.clear()
+
+    def post_result(self, vt, t, result, decision):
+        v = result.get("loss")
+        if isinstance(v, float) and (v != v or v in (float("inf"), float("-inf"))):
+            self.orc.o.count("nonfinite_reports")
+            if decision in ("STOP", "PAUSE"):
+                self.orc.nonfinite_done.add(t.trial_id)
+        else:
+            self.orc.nonfinite_done.discard(t.trial_id)
+
+    def post_complete(self, vt, t):
+        v = (t.last_result or {}).get("loss")
+        if isinstance(v, float) and (v != v or v in (float("inf"), float("-inf"))):
+            self.orc.nonfinite_done.add(t.trial_id)
+            self.orc.o.count("trials_finished_with_nonfinite_metric")
 
     def _gp_model_based(self):
         s = getattr(self.sched, "searcher", None)
@@ -1427,7 +1496,8 @@ def run_scheduler_case(spec, p, o):
         for tid in range(200):
             if rng.random() < p["fail_rate"]:
                 fail[str(tid)] = [0, rng.randint(0, max(0, min(p["max_t"], 3) - 1))]
-    curves = gen.Curves(p["curves"], spec["seed"] + 1, p["max_t"])
+    curves = NonFiniteMetrics(gen.Curves(p["curves"], spec["seed"] + 1, p["max_t"]), spec["seed"] + 4,
+                              p["nonfinite_rate"], p["nonfinite_trials"], p.get("nonfinite_plan"))
     vp = {"n_workers": p["n_workers"], "max_t": p["max_t"], "metric": "loss", "resource_attr": "epoch",
           "policy": p["policy"], "seed": spec["seed"] + 2, "max_events": p["max_events"],
           "max_resource_attr": "epochs" if use_mra else None, "checkpointing": p.get("checkpointing", True),
@@ -1521,7 +1591,12 @@ def run_direct_case(spec, p, o):
             t = rng.choice(pend)
             try:
                 if a == "c":
-                    s.on_trial_result(str(t), cfgs[t], result={"loss": rng.random()}, update=True)
+                    r_ = rng.random()
+                    val = rng.random() if r_ > 0.08 else rng.choice([float("nan"), float("inf"), float("-inf")])
+                    if r_ <= 0.08:
+                        o.count("nonfinite_reports")
+                        orc.nonfinite_done.add(t)
+                    s.on_trial_result(str(t), cfgs[t], result={"loss": val}, update=True)
                     status[t] = "completed"
                 else:
                     s.evaluation_failed(str(t))
